@@ -428,6 +428,12 @@ func concurrencyParamSources(c *core.Ctx, fn *ssa.Function, prm *ssa.Parameter, 
 	ok := true
 	for _, s := range sites {
 		d := stripCaret(an.D().Of(s.Common().Args[idx]))
+		// handed on from a constructor variant's own parameter: that one's call sites decide
+		if up, isParam := an.Strip(s.Common().Args[idx]).(*ssa.Parameter); isParam && up.Parent() != fn && up.Parent().Parent() == nil {
+			if concurrencyParamSources(c, up.Parent(), up, r) {
+				continue
+			}
+		}
 		if !strings.HasSuffix(d, "Concurrency") {
 			ok = false
 			r.Violation(core.FuncName(s.Parent())+"#users-count", an.Pos(c, s), "users worker created with %s, not a configured concurrency", d)
